@@ -210,7 +210,8 @@ def r2_scoped_id(c, facts):
         names = [n for n, _, _ in sl['calls']]
         if any(n.endswith('Locator::url') or n.endswith('::locator') for n in names):
             have['locator'] = True
-            extra = sorted({P.strip(n).split('::')[-1] for n in names} - {'locator', 'url', 'as_str', 'as_ref', 'deref', 'to_string', 'clone', 'borrow', 'as_bytes'})
+            # url::Url::make_relative(base, url) is injective in `url` for a fixed base (base.join(rel) == url), so it keeps modules apart
+            extra = sorted({P.strip(n).split('::')[-1] for n in names} - {'locator', 'url', 'as_str', 'as_ref', 'deref', 'to_string', 'clone', 'borrow', 'as_bytes', 'make_relative', 'base'})
             if extra:
                 c.bad(R, 'digest-locator-partial:%s' % ','.join(extra), 'NodeRef::digest hashes only a part of the module locator (derived through %s): modules that agree on that part share implicit component names' % ', '.join(extra))
         if any(n.endswith('into_raw_parts') for n in names):
